@@ -36,9 +36,9 @@ THEOREMS = [
     'CC.C11_model_lyapunov',
     'CC.C11_model_eig',
 ]
-OPEN_STATEMENTS = []
+OPEN_STATEMENTS = ['not formalised: the FLOW clause — along exp(tA) the stored energy cannot grow, simulated responses stay bounded, the stored energy is non-increasing after all sources have returned to zero; only the rate form (C11_energy_rate + C11_model_lyapunov) is proved; oracle only (sampled-energy stream)']
 ASSUMPTIONS = [
-    'C11_model_lyapunov / C11_model_eig are proved for the executable model (every RLC network without negative conductances, any certificates); the exact definiteness oracle checks the same inequality on the implementation\'s A on every run; the energy-flow clause along exp(tA) is formalised only in rate form',
+    'C11_model_lyapunov / C11_model_eig are proved for the executable model (every RLC network without negative conductances, any certificates); the exact definiteness oracle checks the same inequality on the implementation\'s A on every run',
     'scipy.signal.lsim reproduces exp(A·Δt) (sampled-energy clause only)',
     'binary64 rounding of A enters the exact evaluation of W·A + Aᵀ·W; a tolerance of 1e-9·max|P| absorbs it on the well-conditioned instances generated',
 ]
